@@ -14,7 +14,7 @@ TOL = 1e-10
 
 
 def plan(tier):
-    n = 400 if tier == 'quick' else 6000
+    n = 400 if tier == 'quick' else 3000
     return dict(n_cases=n, shards=16, min_nontrivial=n // 3,
                 min_tags={'model:plate': n // 12, 'model:cpanel': n // 12, 'model:plate_w': n // 20, 'model:kpanel': n // 20,
                           'clause:tiling': n // 10, 'clause:preload': n // 10},
